@@ -21,7 +21,7 @@ META = {
     "stubs": ["none for the geometry itself: RegionGeom.__init__ and throw run from /repo's source under the shim"],
     "assumptions": ["REAL mode with algebraised trigonometry", "generalisation cuts: every fresh symbol carries only facts that were proved about the real term in the init-lemma job"],
 }
-LEDGER = 185
+LEDGER = {"quick": 185, "thorough": 185}
 
 
 def _init(C, symbolic_det=False):
